@@ -180,6 +180,14 @@ func corrC02(c *corrCtx) {
 			c.emit("color/torgba", fmt.Sprintf("col %s torgba %08x %08x %08x %08x", s.name, fb(v[0]), fb(v[1]), fb(v[2]), fb(v[3])), fmt.Sprintf("%08x %08x %08x %08x", b.R, b.G, b.B, b.A))
 			d := s.toRGBA64(lin, v[3])
 			c.emit("color/torgba64", fmt.Sprintf("col %s torgba64 %08x %08x %08x %08x", s.name, fb(v[0]), fb(v[1]), fb(v[2]), fb(v[3])), fmt.Sprintf("%08x %08x %08x %08x", d.R, d.G, d.B, d.A))
+			if k%5 == 0 {
+				// the same components in a value built by another constructor and assigned to afterwards
+				ctor := r.intn(mutCtors)
+				am := mutBySpace[s.name].toNRGBA(ctor, lin, v[3])
+				c.emit("color/assigned-tonrgba", fmt.Sprintf("col %s tonrgba %08x %08x %08x %08x", s.name, fb(v[0]), fb(v[1]), fb(v[2]), fb(v[3])), fmt.Sprintf("%08x %08x %08x %08x", am.R, am.G, am.B, am.A))
+				dm := mutBySpace[s.name].toRGBA64(ctor, lin, v[3])
+				c.emit("color/assigned-torgba64", fmt.Sprintf("col %s torgba64 %08x %08x %08x %08x", s.name, fb(v[0]), fb(v[1]), fb(v[2]), fb(v[3])), fmt.Sprintf("%08x %08x %08x %08x", dm.R, dm.G, dm.B, dm.A))
+			}
 			e := s.toLinRGBA64(lin, v[3])
 			c.emit("color/tolin64", fmt.Sprintf("col %s tolin64 %08x %08x %08x %08x", s.name, fb(v[0]), fb(v[1]), fb(v[2]), fb(v[3])), fmt.Sprintf("%08x %08x %08x %08x", e.R, e.G, e.B, e.A))
 		}
@@ -475,6 +483,69 @@ func corrC14(c *corrCtx) {
 			c.emit("random/"+fn, fmt.Sprintf("col %s %s %x %x %x %x", s.name, fn, rr, g, b, a), wordsHex(colorOpGo(s, fn, rr, g, b, a)))
 		}
 	}
+	// alpha is written from alpha alone: colours with components outside [0,1] (out of gamut, negative)
+	// under every class of alpha, through the four converters; and "additive" pixels whose channels
+	// exceed their alpha through LineariseColor / EncodeColor
+	na := 400
+	if c.thorough() {
+		na = 20000
+	}
+	for i := range spaces {
+		s := &spaces[i]
+		for k := 0; k < na; k++ {
+			lin := [3]float32{float32(r.f64()*3 - 0.5), float32(r.f64()*3 - 0.5), float32(r.f64()*3 - 0.5)}
+			if k%3 == 0 {
+				lin[r.intn(3)] = float32(1 + r.f64()*1e-3)
+			}
+			al := float32(r.intn(65536)) / 65535
+			switch r.intn(5) {
+			case 0:
+				al = float32(r.pick(0, 1, 2, 127, 128, 254, 255)) / 255
+			case 1:
+				al = float32(r.f64())
+			}
+			zero := [3]float32{0, 0, 0}
+			type cv struct {
+				name     string
+				got, ref uint32
+				out      string
+			}
+			a1, a0 := s.toLinRGBA64(lin, al), s.toLinRGBA64(zero, al)
+			b1, b0 := s.toRGBA64(lin, al), s.toRGBA64(zero, al)
+			n1, n0 := s.toNRGBA(lin, al), s.toNRGBA(zero, al)
+			p1, p0 := s.toRGBA(lin, al), s.toRGBA(zero, al)
+			for _, x := range []cv{{"tolin64", uint32(a1.A), uint32(a0.A), fmt.Sprintf("%08x %08x %08x %08x", a1.R, a1.G, a1.B, a1.A)},
+				{"torgba64", uint32(b1.A), uint32(b0.A), fmt.Sprintf("%08x %08x %08x %08x", b1.R, b1.G, b1.B, b1.A)},
+				{"tonrgba", uint32(n1.A), uint32(n0.A), fmt.Sprintf("%08x %08x %08x %08x", n1.R, n1.G, n1.B, n1.A)},
+				{"torgba", uint32(p1.A), uint32(p0.A), fmt.Sprintf("%08x %08x %08x %08x", p1.R, p1.G, p1.B, p1.A)}} {
+				if x.got != x.ref {
+					c.direct(fmt.Sprintf("C14/alpha-from-colour/%s/%s/%08x", s.name, x.name, fb(al)), "the alpha a converter writes depends on the colour's components (it must be round(alpha*max) of alpha alone)",
+						map[string]interface{}{"space": s.name, "converter": x.name, "colour": lin, "alpha": al, "alpha_out": x.got, "alpha_out_for_black": x.ref})
+				}
+				c.emit("outofgamut/"+x.name, fmt.Sprintf("col %s %s %08x %08x %08x %08x", s.name, x.name, fb(lin[0]), fb(lin[1]), fb(lin[2]), fb(al)), x.out)
+			}
+			// additive-style pixels
+			a := uint32(r.intn(65536))
+			if k%4 == 0 {
+				a = uint32(r.pick(0, 1, 2, 255, 256, 32768, 65534))
+			}
+			px := color.RGBA64{R: uint16(r.intn(65536)), G: uint16(r.intn(65536)), B: uint16(r.intn(65536)), A: uint16(a)}
+			for _, fn := range []string{"linearise", "encode"} {
+				out := colorOpGo(s, fn, uint32(px.R), uint32(px.G), uint32(px.B), a)
+				if uint32(out[3]) != a {
+					c.direct(fmt.Sprintf("C14/additive-alpha/%s/%s/%04x", s.name, fn, a), "alpha is not bit-identical through "+fn+" for a pixel whose channels exceed its alpha",
+						map[string]interface{}{"space": s.name, "pixel": []uint16{px.R, px.G, px.B, px.A}, "out": out})
+				}
+				c.emit("additive/"+fn, fmt.Sprintf("col %s %s %x %x %x %x", s.name, fn, px.R, px.G, px.B, a), wordsHex(out))
+			}
+		}
+	}
+	// every dynamic colour type through the generic constructors, all alphas
+	nt := 150
+	if c.thorough() {
+		nt = 3000
+	}
+	typedColourCases(c, "C14", false, nt)
 	// image level: LineariseImage / EncodeImage over images with runs of equal colours whose alpha
 	// varies — every pixel's alpha must come out as it went in (and the rest as the per-pixel law says)
 	c14Images(c)
@@ -786,6 +857,16 @@ func corrC03(c *corrCtx) {
 					map[string]interface{}{"space": s.name, "prev": prev, "in": p, "got": []float32{x.X, x.Y, x.Z}, "want": want})
 			}
 			c.emit("xyz/history", fmt.Sprintf("col %s toxyz %08x %08x %08x 0", s.name, fb(p[0]), fb(p[1]), fb(p[2])), fmt.Sprintf("%08x %08x %08x", fb(x.X), fb(x.Y), fb(x.Z)))
+			if k%4 == 0 {
+				// the same components in a colour value built by another constructor and then assigned to
+				ctor := r.intn(mutCtors)
+				xm := mutBySpace[s.name].toXYZ(ctor, p)
+				if math.Abs(float64(xm.X)-want[0]) > 5e-6 || math.Abs(float64(xm.Y)-want[1]) > 5e-6 || math.Abs(float64(xm.Z)-want[2]) > 5e-6 {
+					c.direct(fmt.Sprintf("C03/assigned/%s/ctor%d/%08x%08x%08x", s.name, ctor, fb(p[0]), fb(p[1]), fb(p[2])), "ToXYZ is not the matrix applied to the colour's components when the value was built by another constructor and its R, G, B fields assigned afterwards",
+						map[string]interface{}{"space": s.name, "constructor": ctor, "in": p, "got": []float32{xm.X, xm.Y, xm.Z}, "want": want})
+				}
+				c.emit("xyz/assigned", fmt.Sprintf("col %s toxyz %08x %08x %08x 0", s.name, fb(p[0]), fb(p[1]), fb(p[2])), fmt.Sprintf("%08x %08x %08x", fb(xm.X), fb(xm.Y), fb(xm.Z)))
+			}
 			q := [3]float32{x.X, x.Y, x.Z}
 			if k%3 == 0 {
 				q = p // XYZ values sharing components with the previous call
@@ -800,6 +881,26 @@ func corrC03(c *corrCtx) {
 			}
 			c.emit("xyz/history", fmt.Sprintf("col %s fromxyz %08x %08x %08x 0", s.name, fb(q[0]), fb(q[1]), fb(q[2])), fmt.Sprintf("%08x %08x %08x", fb(back[0]), fb(back[1]), fb(back[2])))
 			prev = p
+		}
+		// the library's own named constants (and multiples of them) as arguments: the conversions are
+		// functions of the value, whichever exported name it came from
+		for _, w := range []ciexyz.Color{ciexyz.D50, ciexyz.D65, ciexyz.ColorFromXYY(s.white)} {
+			for _, k := range []float32{1, 0.5, 2, 0.18, 0.999999, 1.000001} {
+				q := [3]float32{w.X * k, w.Y * k, w.Z * k}
+				back := s.fromXYZ(ciexyz.Color{X: q[0], Y: q[1], Z: q[2]})
+				wantB := mulv3(refInv, [3]float64{float64(q[0]), float64(q[1]), float64(q[2])})
+				for j := 0; j < 3; j++ {
+					if math.Abs(float64(back[j])-wantB[j]) > 1.5e-5*math.Max(1, float64(k)) {
+						c.direct(fmt.Sprintf("C03/named-constant/%s/%08x%08x%08x", s.name, fb(q[0]), fb(q[1]), fb(q[2])), "ColorFromXYZ is not the inverse matrix applied to its argument at (a multiple of) a named white-point constant",
+							map[string]interface{}{"space": s.name, "in": q, "got": back, "want": wantB})
+					}
+				}
+				c.emit("xyz/named", fmt.Sprintf("col %s fromxyz %08x %08x %08x 0", s.name, fb(q[0]), fb(q[1]), fb(q[2])), fmt.Sprintf("%08x %08x %08x", fb(back[0]), fb(back[1]), fb(back[2])))
+				for _, l := range [][3]float32{{k, k, k}, {1, 1, 1}, {0, 0, 0}, {1, 0, 0}, {0, 1, 0}, {0, 0, 1}} {
+					x := s.toXYZ(l)
+					c.emit("xyz/named", fmt.Sprintf("col %s toxyz %08x %08x %08x 0", s.name, fb(l[0]), fb(l[1]), fb(l[2])), fmt.Sprintf("%08x %08x %08x", fb(x.X), fb(x.Y), fb(x.Z)))
+				}
+			}
 		}
 		if c.thorough() {
 			// round-trip oracle on the real code over the full 2^24 8-bit lattice
